@@ -484,8 +484,10 @@ def run_shard(shard, tier, seed):
                     check_text(res, text, 0, CONFIGS[1], {'kind': 'text', 'text': text, 'context': 0, 'config': list(CONFIGS[1])})
     elif kind == 'b2':
         for name in _codec_names():
-            for form in ('rule-text', 'rule-bytes', 'arg-text', 'arg-bytes'):
-                _codec_case(res, name, form)
+            # (codec names are caseless for Python: every name also in capitals and capitalised)
+            for spelled in dict.fromkeys([name, name.upper(), name.capitalize()]):
+                for form in ('rule-text', 'rule-bytes', 'arg-text', 'arg-bytes'):
+                    _codec_case(res, spelled, form)
         res.sample({'kind': 'codec', 'name': 'latin_1', 'form': 'rule-text'})
     elif kind == 'c':
         _graphs(res)
